@@ -92,6 +92,9 @@ Example cdA_ok : compute 365 (-100000) 100000 false exsA hosA tA fsA = Ok cdA.
 Proof. vm_compute. reflexivity. Qed.
 Example cdA_win_ok : compute 365 18383 18450 false exsA hosA tA fsA = Ok cdA_win.
 Proof. vm_compute. reflexivity. Qed.
+Definition cdA_to : computed := Eval vm_compute in match cdA_of (-100000) 18450 false with Ok c => c | Err _ => cdA_dflt end.
+Example cdA_to_ok : compute 365 (-100000) 18450 false exsA hosA tA fsA = Ok cdA_to.
+Proof. vm_compute. reflexivity. Qed.
 Example cdA_tax : compute_tax 365 (-100000) 100000 false exsA hosA schedA tA = Ok cdA.
 Proof. vm_compute. reflexivity. Qed.
 Example cdA_win_shows : map (fun g => t_row (g_ev g)) (cd_gls cdA_win) = [3; 4; 5; 5] /\ length (cd_all_gls cdA_win) = 7%nat /\
@@ -156,3 +159,13 @@ Example gls9_days : map (fun g => (t_row (g_ev g), g_day g, g_year g)) gls9 = [(
 Proof. vm_compute. reflexivity. Qed.
 (** the sale of row 10: dated 2020-12-31 *)
 Definition g9_hidden : gl := Eval vm_compute in nth 1 gls9 gl_dflt.
+Definition outtx_dflt : outtx :=
+  {| o_row := 0; o_ts := noon 0; o_exch := 0; o_holder := 0; o_type := SELL; o_spot := 0; o_crypto_out_no_fee := 0; o_crypto_fee := 0;
+     o_crypto_out_with_fee := 0; o_fiat_out_no_fee := dzero; o_fiat_fee := dzero; o_fiat_out_with_fee := dzero |}.
+Definition o9_hidden : outtx := Eval vm_compute in nth 1 (t_outs t9) outtx_dflt.
+(** run with to-date 2020-12-31 *)
+Definition cd9 : computed := Eval vm_compute in match compute 365 (-100000) 18627 false exsA hosA t9 fs9 with Ok c => c | Err _ => cdA_dflt end.
+Example cd9_ok : compute 365 (-100000) 18627 false exsA hosA t9 fs9 = Ok cd9.
+Proof. vm_compute. reflexivity. Qed.
+Example cd9_hides : In o9_hidden (t_outs t9) /\ out_day o9_hidden = 18627 /\ cd_outs cd9 = [] /\ cd_gls cd9 = [] /\ cd_yearly cd9 = [].
+Proof. vm_compute. repeat split; auto. Qed.
